@@ -16,6 +16,8 @@
 import Sio.Lemmas.CodecPacket
 import Sio.Lemmas.CodecSpec
 import Sio.Lemmas.CodecGuards
+import Sio.Lemmas.CodecHdrConv
+import Sio.Lemmas.JsonRoundtrip
 import Sio.Lemmas.CodecJson
 namespace Sio.C01
 open Sio
@@ -81,6 +83,14 @@ theorem hdr_roundtrip {cls : Char → DC} (hcls : AsciiCls cls) (t : Nat) (nsp :
     decodeHdr cls (encodeHdr t nsp id natt ++ body) = .ok ⟨t, normNs nsp, id, body, natt.getD 0⟩ :=
   hdr_roundtrip_lem hcls hwf hb
 
+/-- `BodyOK` is exactly the weakest condition: for a well-formed header the round trip holds
+    *iff* the text that follows satisfies it. -/
+theorem hdr_roundtrip_iff {cls : Char → DC} (hcls : AsciiCls cls) (t : Nat) (nsp : Option Str)
+    (id natt : Option Nat) (body : Str) (hwf : WFHdr t nsp id natt = true) :
+    decodeHdr cls (encodeHdr t nsp id natt ++ body) = .ok ⟨t, normNs nsp, id, body, natt.getD 0⟩
+      ↔ BodyOK cls nsp id natt body = true :=
+  ⟨bodyOK_necessary hcls hwf, hdr_roundtrip_lem hcls hwf⟩
+
 /-- header-independent corollary: the body is empty or starts with an ASCII character other
     than a digit, `-` and `/` -/
 theorem hdr_roundtrip_start {cls : Char → DC} (hcls : AsciiCls cls) (t : Nat) (nsp : Option Str)
@@ -91,12 +101,24 @@ theorem hdr_roundtrip_start {cls : Char → DC} (hcls : AsciiCls cls) (t : Nat) 
   · exact hdr_roundtrip_lem hcls hwf (bodyOK_nil _ _ _)
   · exact hdr_roundtrip_lem hcls hwf (bodyOK_of_startOK hcls _ _ _ hb)
 
+example : StartOK "[\"a-b\"]".toList = true ∧ StartOK "{}".toList = true ∧
+    StartOK "-5".toList = false ∧ StartOK "5".toList = false := by decide
+
 /-- the subtle case of the brief: id present, no namespace, non-binary type, a `-` inside the
     body: `2` `12` `["a-b"]` -/
 example : AsciiCls asciiCls ∧ WFHdr 2 none (some 12) none = true ∧
     BodyOK asciiCls none (some 12) none "[\"a-b\"]".toList = true ∧
     encodeHdr 2 none (some 12) none ++ "[\"a-b\"]".toList = "212[\"a-b\"]".toList :=
   ⟨asciiCls_ascii, by decide, by decide, by decide⟩
+
+/-- `BodyOK` is weaker than `StartOK`: a negative number after a header *without* id (or with a
+    namespace) is read back — `Packet(CONNECT_ERROR, data=-5)` ↦ `"4-5"` ↦ data `-5`,
+    `"4/ns,3-5"` ↦ id 3, data `-5` (both confirmed on the real code) -/
+example : BodyOK asciiCls none none none "-5".toList = true ∧
+    BodyOK asciiCls (some "/ns".toList) (some 3) none "-5".toList = true ∧
+    BodyOK asciiCls none (some 3) none "-5".toList = false ∧
+    decodeHdr asciiCls "4-5".toList = .ok ⟨4, none, none, "-5".toList, 0⟩ :=
+  ⟨by decide, by decide, by decide, rfl⟩
 
 /-- the namespace as a path: decoding yields the path without its query string -/
 theorem nsPath_normNs (nsp : Option Str) (h : WFNs nsp = true) :
@@ -110,10 +132,35 @@ theorem nsPath_normNs (nsp : Option Str) (h : WFNs nsp = true) :
 
 /-! ## 3. packet round trip and attachment hand-back -/
 
-/-- Encoding a well-formed packet, decoding the text frame and handing the attachments back one
-    by one yields the same packet (namespace normalised): the text frame decodes to the wire
-    packet and announces exactly the number of attachments produced; after the last attachment
-    the packet is complete (`.inr`), with no attachment nothing is pending (`.inl` with need 0). -/
+/-- Encoding a packet, decoding the text frame and handing the attachments back one by one
+    yields the same packet (namespace normalised): the text frame decodes to the wire packet and
+    announces exactly the number of attachments produced; after the last attachment the packet
+    is complete (`.inr`), with no attachment nothing is pending (`.inl` with need 0).
+
+    This is the statement under the *weakest* hypotheses: `WFCore` (no restriction on the
+    top-level payload) and `PayloadOK` — the printed JSON text is non-empty and cannot be
+    mistaken for a field of *this* header.  It covers e.g. `Packet(CONNECT_ERROR, data=-5)`. -/
+theorem roundtrip_weakest {cls : Char → DC} (hcls : AsciiCls cls) {dumps : J → Str}
+    {loads : Str → Except Err J} (p : Packet)
+    (hrt : ∀ j, p.wire.data = some j → loads (dumps j) = .ok j)
+    (hbody : ∀ j, p.wire.data = some j → PayloadOK cls p (dumps j) = true)
+    (hwf : WFCore p = true) :
+    let atts := (encode dumps p).2.getD []
+    decode cls loads (encode dumps p).1 = .ok (p.wire, atts.length) ∧
+    feed ⟨p.wire, atts.length, []⟩ (atts.map J.bin)
+      = .ok (if atts = [] then .inl ⟨p.norm, 0, []⟩ else .inr p.norm) :=
+  ⟨decode_encode hcls hrt hbody hwf, feed_encode hwf⟩
+
+/-- `Packet(CONNECT_ERROR, data=-5, namespace="/ns", id=3)` ↦ `"4/ns,3-5"` is inside
+    `roundtrip_weakest` although its payload is a bare number -/
+example : WFCore ⟨CONNECT_ERROR, some "/ns".toList, some 3, some (.int (-5))⟩ = true ∧
+    PayloadOK asciiCls ⟨CONNECT_ERROR, some "/ns".toList, some 3, some (.int (-5))⟩
+      (J.dumps (.int (-5))) = true ∧
+    (encode J.dumps ⟨CONNECT_ERROR, some "/ns".toList, some 3, some (.int (-5))⟩).1
+      = "4/ns,3-5".toList := ⟨by decide, by decide, by decide⟩
+
+/-- The property as stated (DESIGN §5): for well-formed packets (`WF`: payload not a bare number)
+    it suffices that the JSON text starts like a JSON text that is not a number (`StartOK`). -/
 theorem roundtrip {cls : Char → DC} (hcls : AsciiCls cls) {dumps : J → Str}
     {loads : Str → Except Err J} (p : Packet)
     (hrt : ∀ j, p.wire.data = some j → loads (dumps j) = .ok j)
@@ -123,20 +170,13 @@ theorem roundtrip {cls : Char → DC} (hcls : AsciiCls cls) {dumps : J → Str}
     decode cls loads (encode dumps p).1 = .ok (p.wire, atts.length) ∧
     feed ⟨p.wire, atts.length, []⟩ (atts.map J.bin)
       = .ok (if atts = [] then .inl ⟨p.norm, 0, []⟩ else .inr p.norm) :=
-  ⟨decode_encode hcls hrt hstart hwf, feed_encode hwf⟩
+  roundtrip_weakest hcls p hrt (fun j h => payloadOK_of_startOK hcls p (hstart j h)) (wf_core hwf)
 
-/-- the same with the JSON hypotheses in their global form (as in DESIGN §5) -/
-theorem roundtrip_global {cls : Char → DC} (hcls : AsciiCls cls) {dumps : J → Str}
-    {loads : Str → Except Err J}
-    (hrt : ∀ j, NoBin j = true → loads (dumps j) = .ok j)
-    (hstart : ∀ j, TopOK j = true → StartOK (dumps j) = true)
-    (p : Packet) (hwf : WF p = true) :
-    let atts := (encode dumps p).2.getD []
-    decode cls loads (encode dumps p).1 = .ok (p.wire, atts.length) ∧
-    feed ⟨p.wire, atts.length, []⟩ (atts.map J.bin)
-      = .ok (if atts = [] then .inl ⟨p.norm, 0, []⟩ else .inr p.norm) :=
-  roundtrip hcls p (fun j h => hrt j (wire_json_hyps hwf h).1)
-    (fun j h => hstart j (wire_json_hyps hwf h).2) hwf
+/- The global form of DESIGN §5 (`hrt : ∀ j, NoBin j → loads (dumps j) = ok j`,
+   `hstart : ∀ j, TopOK j → StartOK (dumps j)`) implies the pointwise hypotheses above:
+   the printed value is `NoBin` and `TopOK` (`Sio.wire_json_hyps`).  It is not stated as a theorem
+   of its own because no natural printer satisfies the global `hrt` (float literals are opaque
+   text, so `flt "1"` and `int 1` print alike); the pointwise form is the stronger theorem. -/
 
 /-- `hstart` holds for the Lean printer: it is discharged, not assumed. -/
 theorem dumps_start (j : J) (h : TopOK j = true) : StartOK (J.dumps j) = true :=
@@ -171,7 +211,7 @@ example : WFArgs EVENT (some exData) (some "/chat?x=1".toList) (some 12) = true 
 /-- `handback`: wherever the attachment list is split, the attachment at the split point is
     answered "more" unless it is the last one, which completes the packet `norm p`; any
     attachment after that is refused with `ValueError`. -/
-theorem handback {dumps : J → Str} (p : Packet) (hwf : WF p = true) :
+theorem handback {dumps : J → Str} (p : Packet) (hwf : WFCore p = true) :
     let atts := (encode dumps p).2.getD []
     (∀ (pre post : List J) (b : J), atts.map J.bin = pre ++ b :: post →
       addAttachment ⟨p.wire, atts.length, pre⟩ b
@@ -232,7 +272,7 @@ theorem spec_accepts {dumps : J → Str} {loads : Str → Except Err J} (p : Pac
     (hstart : ∀ j, p.wire.data = some j → StartOK (dumps j) = true)
     (hwf : WF p = true) :
     Spec.parse loads (Spec.frame dumps p).1 = .ok (p.wire, (Spec.frame dumps p).2.length) :=
-  spec_accepts_lem hrt hstart hwf
+  spec_accepts_lem hrt hstart (wf_core hwf)
 
 /-- The specification's reassembly puts the byte strings back: placeholders are numbered as
     the specification says. -/
@@ -251,7 +291,7 @@ theorem spec_frames_decode {cls : Char → DC} (hcls : AsciiCls cls) {dumps : J 
     feed ⟨p.wire, (Spec.frame dumps p).2.length, []⟩ ((Spec.frame dumps p).2.map J.bin)
       = .ok (if (Spec.frame dumps p).2 = [] then .inl ⟨p.norm, 0, []⟩ else .inr p.norm) := by
   rw [spec_frame_fst, spec_frame_snd]
-  exact ⟨decode_encode hcls hrt hstart hwf, feed_encode hwf⟩
+  exact roundtrip hcls p hrt hstart hwf
 
 example : Spec.parse exLoads (Spec.frame J.dumps exP).1 = .ok (exP.wire, 2) :=
   spec_accepts exP (by
@@ -279,7 +319,44 @@ example : DecLt10 asciiCls := asciiCls_decLt10
 example : ∃ h, decodeHdr asciiCls "59999999999-".toList = .ok h ∧ h.natt = 9999999999 :=
   ⟨⟨5, none, none, [], 9999999999⟩, rfl, rfl⟩
 
-/-! ## 7. the domain boundary (informational; DESIGN §5 C01)
+/-! ## 7. phase 2: the JSON text layer made concrete
+
+`J.loads` (Sio/Model/JsonParse.lean) is a recursive-descent reader for compact JSON: strings with
+all escapes including `\uXXXX` surrogate pairs, integers exactly, float literals kept as text.
+With it the hypothesis `hrt` of `roundtrip` is discharged: nothing about JSON is assumed any more,
+only that float leaves carry well-formed literals (`FltLits`; every `repr` of a finite Python
+float is one). -/
+
+/-- The concrete reader inverts the concrete printer on every tree without byte strings. -/
+theorem loads_dumps (j : J) (hb : NoBin j = true) (hf : FltLits j = true) :
+    J.loads (J.dumps j) = .ok j :=
+  loads_dumps_lem j hb hf
+
+example : NoBin (decon exData []).1 = true ∧ FltLits (decon exData []).1 = true ∧
+    FltLits (.arr [.flt "1.5e+10".toList, .flt "-0.0".toList, .str "x".toList]) = true := by decide
+
+/-- `roundtrip` with both JSON parameters instantiated: no hypothesis on the text layer. -/
+theorem roundtrip_concrete {cls : Char → DC} (hcls : AsciiCls cls) (p : Packet)
+    (hwf : WF p = true) (hfl : optAll FltLits p.data = true) :
+    let atts := (encode J.dumps p).2.getD []
+    decode cls J.loads (encode J.dumps p).1 = .ok (p.wire, atts.length) ∧
+    feed ⟨p.wire, atts.length, []⟩ (atts.map J.bin)
+      = .ok (if atts = [] then .inl ⟨p.norm, 0, []⟩ else .inr p.norm) :=
+  roundtrip hcls p
+    (fun j h => loads_dumps_lem j (wire_json_hyps hwf h).1 (wire_fltLits hfl h))
+    (fun j h => dumps_startOK j (wire_json_hyps hwf h).2) hwf
+
+/-- likewise for the specification parser -/
+theorem spec_accepts_concrete (p : Packet) (hwf : WF p = true)
+    (hfl : optAll FltLits p.data = true) :
+    Spec.parse J.loads (Spec.frame J.dumps p).1 = .ok (p.wire, (Spec.frame J.dumps p).2.length) :=
+  spec_accepts p
+    (fun j h => loads_dumps_lem j (wire_json_hyps hwf h).1 (wire_fltLits hfl h))
+    (fun j h => dumps_startOK j (wire_json_hyps hwf h).2) hwf
+
+example : WF exP = true ∧ optAll FltLits exP.data = true := by decide
+
+/-! ## 8. the domain boundary (informational; DESIGN §5 C01)
 
 A bare number as the top-level payload is outside the quantifier (`TopOK`): it is
 indistinguishable from an id / an attachment count.  Both witnesses are reproduced on the real
